@@ -1,7 +1,7 @@
 """Shared scheduler premises S1-S7 and the run-time rules of C01-C10
 (DESIGN.md sections 4 and 5).  Every rule works on MIR facts: resolved callees,
 value sources (allocation sites), dominance and control dependence."""
-from analysis import (E, Src, awaits, expr_operand, expr_place, expr_local, expr_calls, fmt_expr, fmt_src,
+from analysis import (E, Src, awaits, expr_operand, expr_place, expr_local, expr_calls, expr_rvalue, fmt_expr, fmt_src,
                       get_defs, guards_of, strip_proj, strip_refs, switch_expr, walk_expr, upvar_index)
 from facts import callee_path, is_param_call, fmt_term
 from model import CHANNEL_FNS, SEND_FNS, RECV_FNS, short
@@ -342,9 +342,10 @@ def _counts_allocs_in(ctx, setup):
                 fl = m.flow
                 srcs = fl.sources_operand(setup, t["args"][0])
                 gsrc = set()
-                for gbb, gt in setup.calls():
-                    if (callee_path(gt) or "").startswith("edge_counts::EdgeCounts::"):
-                        gsrc |= set(fl.sources_local(setup, gt["dest"]["l"], ()))
+                for gb_ in setup_group(ctx):
+                    for gbb, gt in gb_.calls():
+                        if (callee_path(gt) or "").startswith("edge_counts::EdgeCounts::"):
+                            gsrc |= set(fl.sources_local(gb_, gt["dest"]["l"], ()))
                 if srcs and gsrc and set(srcs) <= gsrc:
                     out[(setup.id, bb)] = "selected-getter"
     return out
@@ -379,6 +380,9 @@ def degree_vectors(ctx):
             v = st["value"]
             if not (v.kind == "binop" and v[1] == "Add"):
                 continue
+            if b.kind == "fn" and not (fb.fns.get(b.id) or {}).get("public") and \
+                    any(x.kind == "param" and x[1] == b.id for x in fl.sources_operand(b, st["container"], (), "prov@" + b.id)):
+                continue        # a bump helper working on a vector it is handed: classified per call site below
             csrcs = fl.sources_operand(b, st["container"])
             allocs = [s for s in csrcs if s.kind == "alloc" and s[4] == "std::vec::from_elem"]
             if not allocs or len(allocs) != len(csrcs):
@@ -439,6 +443,75 @@ def degree_vectors(ctx):
                 k2 = kind if inc_ok else "?"
                 kinds[key] = k2 if prev in (None, k2) else "?"
                 details.setdefault(key, []).append((b, st, why, fmt_expr(v, b)))
+    # helper form: `fn bump_each(counts: &mut [usize], neighbours: impl Iterator<..>) { for (_, n) in neighbours { counts[n] += 1 } }`
+    # called once with (incoming, children(node)) and once with (outgoing, parents(node)) inside the walk over all nodes:
+    # each call site is classified on its own
+    for hb in fb.prod_bodies():
+        hsig = fb.fns.get(hb.id) or {}
+        if hb.kind != "fn" or hsig.get("public"):
+            continue
+        for st in stores_through_index(hb):
+            v = st["value"]
+            if not (v.kind == "binop" and v[1] == "Add"):
+                continue
+            csum = fl.sources_operand(hb, st["container"], (), "prov@" + hb.id)
+            cpar = [x for x in csum if x.kind == "param" and x[1] == hb.id and not x[3]]
+            if len(cpar) != 1 or len(csum) != 1:
+                continue
+            idx = node_index_arg(expr_operand(hb, st["idx"]))
+            if idx is None:
+                continue
+            isum = sources_of_expr(ctx, hb, idx, mode="prov@" + hb.id)
+            ipar = [x for x in isum if x.kind == "param" and x[1] == hb.id and "$item" in x[3]]
+            if len(ipar) != 1 or len(isum) != 1:
+                continue
+            inc_ok = is_const(v[3], 1) or is_const(v[2], 1)
+            lr = loop_region(ctx, hb, st["bb"])
+            inner_ok = lr is not None and not lr["early_exits"] and \
+                not [g for g in cond_guards(hb, st["bb"]) if g[0] in lr["blocks"] and g[0] != lr.get("switch_bb")]
+            if inner_ok:
+                ichain = iterator_chain(ctx, hb, lr["iter_expr"]) if lr.get("iter_expr") is not None else []
+                inner_ok = not [c for c in ichain if c[0] in SELECTIVE_ITER] and bool(ichain) and ichain[-1][0] == "leaf:arg" and ichain[-1][2][1] == ipar[0][2]
+            for (cb, cbb, ct) in fl.call_sites().get(hb.id, []):
+                if fb.is_test_body(cb):
+                    continue
+                ci, ii = cpar[0][2], ipar[0][2]
+                if ci - 1 >= len(ct["args"]) or ii - 1 >= len(ct["args"]):
+                    continue
+                asrc = fl.sources_operand(cb, ct["args"][ci - 1])
+                allocs = [s_ for s_ in asrc if s_.kind == "alloc" and s_[4] == "std::vec::from_elem"]
+                if not allocs or len(allocs) != len(asrc):
+                    continue
+                wchain = iterator_chain(ctx, cb, expr_operand(cb, ct["args"][ii - 1]))
+                wn = [c[0] for c in wchain if not c[0].startswith("inline:")]
+                walk = [n_ for n_ in wn if n_ in (CHILDREN, PARENTS)]
+                kind = "?"
+                why = "walk %s" % wn
+                if inc_ok and inner_ok and len(walk) == 1 and not [n_ for n_ in wn if n_ in SELECTIVE_ITER]:
+                    kind = "in" if walk[0] == CHILDREN else "out"
+                    # the call runs for every node: unconditional in a loop / for_each over all nodes
+                    lro = loop_region(ctx, cb, cbb)
+                    outer_ok = False
+                    if lro is not None:
+                        och = iterator_chain(ctx, cb, lro["iter_expr"]) if lro.get("iter_expr") is not None else []
+                        on = [c[0] for c in och]
+                        outer_ok = not lro["early_exits"] and not [x for x in on if x in SELECTIVE_ITER] and \
+                            any(x in ALL_NODE_SOURCES or x.endswith("::node_indices") for x in on) and \
+                            not [g for g in cond_guards(cb, cbb) if g[0] in lro["blocks"] and g[0] != lro.get("switch_bb")]
+                    elif cb.kind == "closure":
+                        ou = fl.closure_uses(cb)
+                        if len(ou) == 1 and callee_path(ou[0][2]) in ("std::iter::Iterator::fold", "std::iter::Iterator::for_each"):
+                            on = [c[0] for c in iterator_chain(ctx, ou[0][0], expr_operand(ou[0][0], ou[0][2]["args"][0]))]
+                            outer_ok = not [x for x in on if x in SELECTIVE_ITER] and any(x in ALL_NODE_SOURCES or x.endswith("::node_indices") for x in on) and \
+                                not cond_guards(cb, cbb)
+                    if not outer_ok:
+                        kind = "?"
+                        why = "the bump helper is not called for every node"
+                for a in allocs:
+                    key = (a[1], a[2])
+                    prev = kinds.get(key)
+                    kinds[key] = kind if prev in (None, kind) else "?"
+                    details.setdefault(key, []).append((cb, st, why, fmt_expr(v, hb)))
     # gather form: vec[i] = number of parents / children of node i, for all nodes in index order
     for b in fb.prod_bodies():
         for bb, t in b.calls():
@@ -835,7 +908,85 @@ def S1(ctx, rule="S1"):
                     param_field[pi] = (fields, unknown)
                 break
     if not pairs:
+        # the structure and the counts may be selected separately, each by a `match` on the order in a helper of its own
+        # (`order.graph_structure(fwd, rev)` / `order.predecessor_counts(counts)`): pair them arm by arm
+        sel_struct = sel_counts = None
+        for hb in setup_group(ctx)[1:]:
+            by_arm = {}
+            kind = None
+            defs0 = list(get_defs(hb).of(0))
+            if len(defs0) == 1 and defs0[0][0] == "stmt" and arm_order(ctx, hb, defs0[0][1]) is None and defs0[0][3]["rv"]["k"] in ("use", "ref", "copy_for_deref"):
+                # `let r = match order { .. }; r` (possibly re-borrowed at the join): the arms assign a temporary
+                rv0 = defs0[0][3]["rv"]
+                pl0 = rv0["pl"] if rv0["k"] != "use" else (rv0["op"].get("pl") if rv0["op"]["k"] != "const" else None)
+                if pl0 is not None and all(pr == "*" for pr in pl0["p"]):
+                    defs0 = list(get_defs(hb).of(pl0["l"]))
+            for kind_, dbb, si_, x_ in defs0:
+                o_ = arm_order(ctx, hb, dbb)
+                if o_ is None:
+                    by_arm = None
+                    break
+                if kind_ == "call" and (callee_path(x_) or "").startswith("edge_counts::EdgeCounts::"):
+                    by_arm[o_] = ("getter", callee_path(x_))
+                    kind = "counts"
+                elif kind_ == "stmt" and x_["rv"]["k"] in ("use", "ref", "copy_for_deref"):
+                    ex_ = strip_refs(expr_rvalue(hb, x_["rv"], 0, (dbb, si_)))
+                    if ex_.kind == "arg":
+                        by_arm[o_] = ("param", ex_[1])
+                        kind = kind or "struct"
+                    elif ex_.kind == "call" and ex_[1].startswith("edge_counts::EdgeCounts::"):
+                        by_arm[o_] = ("getter", ex_[1])
+                        kind = "counts"
+                    else:
+                        by_arm = None
+                        break
+                else:
+                    by_arm = None
+                    break
+            if not by_arm or set(by_arm) != {"Forward", "Reverse"}:
+                continue
+            csites = [(cb_, cbb_, ct_) for (cb_, cbb_, ct_) in fl.call_sites().get(hb.id, []) if cb_.id == setup.id]
+            if len(csites) != 1:
+                continue
+            if kind == "counts" and all(v[0] == "getter" for v in by_arm.values()):
+                sel_counts = (hb, by_arm, csites[0])
+            elif kind == "struct" and all(v[0] == "param" for v in by_arm.values()):
+                sel_struct = (hb, by_arm, csites[0])
+        if sel_struct and sel_counts:
+            # both selectors are keyed by the same order value
+            def order_arg(sel):
+                hb_, _, (cb_, cbb_, ct_) = sel
+                oi_ = [i for i in range(1, hb_.arg_count + 1) if "StreamOrder" in hb_.locals[i]["s"]]
+                return fl.sources_operand(cb_, ct_["args"][oi_[0] - 1]) if oi_ else frozenset()
+            same_key = bool(order_arg(sel_struct)) and order_arg(sel_struct) == order_arg(sel_counts)
+            ctx.check(same_key, rule, "pair-key", m.where(setup, sel_struct[2][1]),
+                      "the structure selector and the counts selector are given the same StreamOrder value",
+                      "the structure and the counts are selected by different order values")
+            for order in ("Forward", "Reverse"):
+                pidx = sel_struct[1][order][1]
+                cb_, cbb_, ct_ = sel_struct[2]
+                ssrcs = fl.sources_operand(cb_, ct_["args"][pidx - 1]) if pidx - 1 < len(ct_["args"]) else frozenset()
+                sfields = set()
+                for s_ in ssrcs:
+                    if s_.kind == "param" and s_[1] == setup.id:
+                        sfields |= param_field.get(s_[2], (set(), []))[0]
+                    elif s_.kind == "param" and len(s_[3]) >= 1 and isinstance(s_[3][0], int):
+                        sfields.add(s_[3][0])
+                getter = sel_counts[1][order][1]
+                deg = getter_degree.get(getter, "?")
+                want = "in" if sfields == {fwd_f} else ("out" if sfields == {rev_f} else None)
+                sname = "forward structure" if sfields == {fwd_f} else ("reversed structure" if sfields == {rev_f} else "fields %s" % sorted(sfields))
+                pair_obs += 1
+                ctx.check(want is not None and deg == want, rule, "pair|%s" % getter, m.where(sel_counts[0]),
+                          "%s is paired (arm StreamOrder::%s of both selectors) with the %s-degree counts (%s)" % (sname, order, deg, getter),
+                          "mismatched pairing in arm StreamOrder::%s: structure %s with %s-degree counts (%s)" % (order, sname, deg, getter))
+                want_s = {"Forward": fwd_f, "Reverse": rev_f}[order]
+                ctx.check(sfields == {want_s}, rule, "order|%s" % order, m.where(sel_struct[0]),
+                          "StreamOrder::%s selects the %s" % (order, sname), "StreamOrder::%s selects %s" % (order, sname))
+            pairs = [None]
+    if not pairs:
         ctx.unverifiable(rule, "pair", m.where(setup), "no aggregate pairing a structure with an EdgeCounts getter found in the set-up function")
+    pairs = [p_ for p_ in pairs if p_ is not None]
     for (pbb_, sop_, getter) in sorted(pairs, key=lambda x: (x[0], x[2])):
         cbb = pbb_
         where = m.where(setup, cbb)
@@ -2223,7 +2374,12 @@ def S6(ctx, rule="S6", roles_filter=None):
         if capop is None:
             ctx.unverifiable(rule, key, where, "capacity of the %s channel not found (allocated through a wrapper)" % role)
             continue
-        e = inline_local_calls(ctx, expr_operand(b, capop))
+        if isinstance(capop, dict) and "wrapped" in capop:
+            from rules_build import subst_args
+            wb_, wcap_, wct_ = capop["wrapped"]
+            e = inline_local_calls(ctx, subst_args(expr_operand(wb_, wcap_), [strip_refs(expr_operand(b, a_)) for a_ in wct_["args"]]))
+        else:
+            e = inline_local_calls(ctx, expr_operand(b, capop))
         lb = capacity_lower_bound(e)
         ctx.check(lb is not None and lb >= 1, rule, key + "|nonzero", where,
                   "%s channel capacity `%s` is at least %s for every graph (tokio's mpsc::channel panics on capacity 0)" % (role, fmt_expr(e, b), lb),
